@@ -1316,6 +1316,18 @@ func (c *vchCtx) run(maxSteps int) {
 		// a dance with a restart on the brand-new channel
 		c.genDanceCut(r.intn(3) / 2) // the opener twice as often
 	}
+	if c.cut {
+		// each resolution kind gets its directed restart scenario in a
+		// fifth of the cases
+		for _, kind := range []string{"settle", "fail", "malformed"} {
+			if r.intn(5) == 0 && c.abort == "" {
+				c.genResolveCut(kind)
+			}
+		}
+		if n := len(c.steps) + maxSteps/2; n > maxSteps {
+			maxSteps = n
+		}
+	}
 	for len(c.steps) < maxSteps && c.abort == "" {
 		x := r.intn(1000)
 		switch {
@@ -1338,8 +1350,8 @@ func (c *vchCtx) run(maxSteps int) {
 	c.drain()
 }
 
-// drain delivers everything and signs / revokes until both sides are clean.
-func (c *vchCtx) drain() {
+// quiesce delivers everything and signs / revokes until both sides are clean.
+func (c *vchCtx) quiesce() {
 	for iter := 0; iter < 40 && c.abort == ""; iter++ {
 		progressed := false
 		for p := 0; p < 2 && c.abort == ""; p++ {
@@ -1364,6 +1376,11 @@ func (c *vchCtx) drain() {
 			break
 		}
 	}
+}
+
+// drain = quiesce + one last side write + a reload observation of both sides.
+func (c *vchCtx) drain() {
+	c.quiesce()
 	if c.abort == "" && c.sideOn {
 		c.doSide(c.r.intn(2), vchSideKinds[c.r.intn(len(vchSideKinds))])
 	}
@@ -1371,6 +1388,94 @@ func (c *vchCtx) drain() {
 		c.doCrash(0)
 		c.doCrash(1)
 	}
+}
+
+// genResolveCut is a directed snippet around the resolution of a locked-in
+// HTLC: p resolves (settle | fail | malformed) an incoming HTLC - one is
+// offered and locked in first if there is none -, signs, the peer revokes, and
+// the connection is cut at a chosen stage, most often in the window "peer's
+// revoke_and_ack processed, peer's next commit_sig not yet" (the resolution
+// then lives only in remoteUnsignedLocalUpdates), with the peer's own new add +
+// signature lost in flight.  After the restart p (sometimes) adds something
+// and both sides sign until clean.
+func (c *vchCtx) genResolveCut(kind string) {
+	r := c.r
+	p := r.intn(2)
+	q := 1 - p
+	ok := func() bool { return c.abort == "" }
+	flush := func(to int) {
+		for ok() && c.canDeliver(to) {
+			c.doDeliver(to)
+		}
+	}
+	c.quiesce()
+	if !ok() {
+		return
+	}
+	res := c.resolvable(p)
+	if len(res) == 0 {
+		amt := lnwire.MilliSatoshi(r.rng(5_000_000, 900_000_000))
+		if r.intn(4) == 0 {
+			amt = c.pickAmt(q)
+		}
+		hid := c.nHash
+		c.nHash++
+		if c.doAdd(q, amt, uint32(100+r.intn(8)), hid, false) != "ok" {
+			return
+		}
+		c.quiesce()
+		if res = c.resolvable(p); !ok() || len(res) == 0 {
+			return
+		}
+	}
+	if c.doResolve(kind, p, res[r.intn(len(res))], false, false) != "ok" {
+		return
+	}
+	stop := []int{3, 3, 3, 4, 4, 4, 0, 1, 2, 5}[r.intn(10)]
+	prefix := 0
+	stages := []func(){
+		func() { c.doSign(p) },
+		func() { flush(q) },
+		func() {
+			if c.hasLtip(q) {
+				c.doRevoke(q)
+			}
+		},
+		func() { flush(p) },
+		func() {
+			// the peer's next flight: maybe a new add, and the signature
+			// that covers p's resolution
+			if r.intn(3) > 0 {
+				c.genAdd(q)
+			}
+			if ok() && c.windowOpen(q) && c.owes(q) {
+				c.doSign(q)
+			}
+			if r.intn(3) == 0 && len(c.q[p]) > 1 {
+				prefix = len(c.q[p]) - 1 // updates arrive, the sig is lost
+			}
+		},
+		func() { flush(p) },
+	}
+	for i, st := range stages {
+		if !ok() {
+			return
+		}
+		st()
+		if i == stop {
+			break
+		}
+	}
+	if !ok() {
+		return
+	}
+	if c.cut {
+		c.doCut(prefix, 0)
+	}
+	if ok() && r.bool() {
+		c.genAdd(p)
+	}
+	c.quiesce()
 }
 
 func (c *vchCtx) clean() bool {
